@@ -616,6 +616,7 @@ func main() {
 	outDir := filepath.Join(*out, *id)
 	os.MkdirAll(outDir, 0o755)
 	ncex := 0
+	knownPrinted := map[string]bool{}
 	for _, f := range files {
 		h, err := parseHarness(f)
 		if err != nil {
@@ -699,8 +700,11 @@ func main() {
 				for _, k := range knownList {
 					if k.Prop == *id && k.Key == key {
 						isKnown = true
-						fmt.Printf("KNOWN-FINDING: property=%s %s [%s]\n", *id, k.Text, key)
-						ev.Known = append(ev.Known, key)
+						if !knownPrinted[key] { // one line per listed finding, however many counterexamples show it
+							knownPrinted[key] = true
+							fmt.Printf("KNOWN-FINDING: property=%s %s [%s] replay=%s\n", *id, k.Text, key, path)
+							ev.Known = append(ev.Known, key)
+						}
 					}
 				}
 				if !isKnown {
